@@ -2,251 +2,23 @@
 `qasm/sym.rs`: reset, measure, finish (execution of the block queue).
 (split out of GenRegs3.lean so that an equality that no longer holds blocks only the properties that rely on it)
 -/
-import Qvnt.Lemmas.GenMeas
-import Qvnt.Lemmas.GenExtOp
-
-set_option linter.unusedSectionVars false
-
-namespace Qvnt.Gen2
-open Qvnt Qvnt.Gen
-
-variable {R : Type}
-
-/-! ### execution of the block queue (`qasm/sym.rs`) -/
-section sym
-variable [CommRing R] [Consts R] [Div R] [LE R] [DecidableLE R] [LT R] [DecidableLT R] [HasSqrt R] [RegConsts R]
-
-/-- the model's simulator state as the translated record -/
-def symOfModel (s : Sym R) : SymG R := ⟨s.mOp, ofModel s.qReg, cregOfModel s.cReg, s.qOps⟩
-
-theorem creg_set_of (c : CReg) (b : Bool) (m : Nat) : creg_set (cregOfModel c) b m = cregOfModel (c.set b m) :=
-  creg_eq_of_toModel _ _ (creg_set_eq _ _ _)
-theorem creg_xor_of (c : CReg) (b : Bool) (m : Nat) : creg_xor (cregOfModel c) b m = cregOfModel (c.xor b m) :=
-  creg_eq_of_toModel _ _ (creg_xor_eq _ _ _)
-theorem creg_reset_of (c : CReg) (i : Nat) : creg_reset (cregOfModel c) i = cregOfModel (c.reset i) :=
-  creg_eq_of_toModel _ _ (creg_reset_eq _ _)
-
-/-- `Sym::new`: a register of as many qubits / classical bits as the interpreter declared (fewer than 64, which the
-interpreter's declaration checks guarantee), the interpreter's queue and measurement mode -/
-theorem sym_new_eq (i : Interp R) (hq : i.qReg.length < 64) : sym_new i = symOfModel (Sym.new i) := by
-  simp only [sym_new, symOfModel, Sym.new, quant_new_eq _ hq]
-  congr 1
-  exact creg_eq_of_toModel _ _ (creg_new_eq _)
-
-theorem sym_get_class_eq (s : Sym R) : sym_get_class (symOfModel s) = cregOfModel s.cReg := rfl
-
-theorem sym_get_probabilities_eq (s : Sym R) (h : s.qReg.qNum < 64) (hs : 2 ^ s.qReg.qNum ≤ s.qReg.psi.size) :
-    sym_get_probabilities (symOfModel s) = s.qReg.getProbabilities := by
-  simp only [sym_get_probabilities, symOfModel]
-  exact quant_get_probabilities_eq s.qReg h hs
-
-theorem sym_reset_eq (s : Sym R) : sym_reset (symOfModel s) = symOfModel s.reset := by
-  simp [sym_reset, symOfModel, Sym.reset, quant_reset_eq, creg_reset_of]
-
-theorem store_set_eq (c : CReg) (value qa ca : Nat) :
-    List.foldl (fun (st : CRegG) (a : Nat × Nat) => creg_set st ((value &&& a.1) != 0) a.2) (cregOfModel c)
-        (List.zip (bitsList qa) (bitsList ca)) = cregOfModel (Sym.storeBits .set c value qa ca) := by
-  unfold Sym.storeBits
-  rw [bitsList_eq, bitsList_eq]
-  generalize (bitsIterList qa).zip (bitsIterList ca) = l
-  induction l generalizing c with
-  | nil => rfl
-  | cons x xs ih =>
-    simp only [List.foldl_cons, creg_set_of]
-    have : ((value &&& x.1) != 0) = decide (value &&& x.1 ≠ 0) := by
-      by_cases h : value &&& x.1 = 0 <;> simp [h]
-    rw [this]
-    exact ih _
-
-theorem store_xor_eq (c : CReg) (value qa ca : Nat) :
-    List.foldl (fun (st : CRegG) (a : Nat × Nat) => creg_xor st ((value &&& a.1) != 0) a.2) (cregOfModel c)
-        (List.zip (bitsList qa) (bitsList ca)) = cregOfModel (Sym.storeBits .xor c value qa ca) := by
-  unfold Sym.storeBits
-  rw [bitsList_eq, bitsList_eq]
-  generalize (bitsIterList qa).zip (bitsIterList ca) = l
-  induction l generalizing c with
-  | nil => rfl
-  | cons x xs ih =>
-    simp only [List.foldl_cons, creg_xor_of]
-    have : ((value &&& x.1) != 0) = decide (value &&& x.1 ≠ 0) := by
-      by_cases h : value &&& x.1 = 0 <;> simp [h]
-    rw [this]
-    exact ih _
-
-theorem storeBits_qMask (m : MeasureOp) (c : CReg) (value qa ca : Nat) :
-    (Sym.storeBits m c value qa ca).qMask = c.qMask := by
-  unfold Sym.storeBits
-  generalize (bitsIterList qa).zip (bitsIterList ca) = l
-  induction l generalizing c with
-  | nil => rfl
-  | cons x xs ih =>
-    simp only [List.foldl_cons]
-    rw [ih]
-    cases m <;> simp [CReg.set, CReg.xor] <;> split <;> rfl
-
-/-- a fold in the `Option` monad simulates another one through a map of the states, under an invariant -/
-theorem foldlM_sim {σ τ β : Type} (f : σ → β → Option σ) (g : τ → β → Option τ) (φ : τ → σ) (P : τ → Prop)
-    (l : List β)
-    (hstep : ∀ t b, P t → b ∈ l → f (φ t) b = (g t b).map φ)
-    (hP : ∀ t b t', P t → b ∈ l → g t b = some t' → P t') (t : τ) (h0 : P t) :
-    List.foldlM f (φ t) l = (List.foldlM g t l).map φ := by
-  induction l generalizing t with
-  | nil => simp
-  | cons b bs ih =>
-    simp only [List.foldlM_cons]
-    rw [hstep t b h0 (by simp)]
-    cases hg : g t b with
-    | none => simp
-    | some t' =>
-      simp only [Option.map_some, Option.bind_some, Option.bind_eq_bind]
-      exact ih (fun t b ht hb => hstep t b ht (by simp [hb])) (fun t b t' ht hb => hP t b t' ht (by simp [hb]))
-        t' (hP t b t' h0 (by simp) hg)
-
-theorem foldlM_inv {τ β : Type} (g : τ → β → Option τ) (P : τ → Prop) (l : List β)
-    (hP : ∀ t b t', P t → b ∈ l → g t b = some t' → P t') (t t' : τ) (h0 : P t)
-    (h : List.foldlM g t l = some t') : P t' := by
-  induction l generalizing t with
-  | nil => simp at h; subst h; exact h0
-  | cons b bs ih =>
-    simp only [List.foldlM_cons] at h
-    cases hg : g t b with
-    | none => simp [hg] at h
-    | some t1 =>
-      simp only [hg, Option.bind_some, Option.bind_eq_bind] at h
-      exact ih (fun t b t' ht hb => hP t b t' ht (by simp [hb])) t1 (hP t b t1 h0 (by simp) hg) h
-
-theorem foldl_option {τ β : Type} (g : τ → β → Option τ) (l : List β) (o : Option τ) :
-    List.foldl (fun (st : Option τ) b => st.bind (fun x => g x b)) o l = o.bind (fun t => List.foldlM g t l) := by
-  induction l generalizing o with
-  | nil => cases o <;> simp
-  | cons b bs ih =>
-    simp only [List.foldl_cons, ih]
-    cases o with
-    | none => simp
-    | some t => simp [List.foldlM_cons]
-
-/-- one block of `Sym::finish` in the model, as a function of the state pair -/
-def mstep (p : Sym R × List Nat) (b : MultiOp R × Sep) : Option (Sym R × List Nat) := Sym.stepBlock (some p) b
-
-theorem finish_as_foldlM (s : Sym R) (ds : List Nat) :
-    s.finish ds = (List.foldlM mstep (s, ds) s.qOps.blocks).bind
-      (fun p => some ({ p.1 with qReg := p.1.qReg.apply p.1.qOps.tail }, p.2)) := by
-  rw [Sym.finish_eq_stepBlock]
-  have hF : (Sym.stepBlock (R := R)) = (fun st b => st.bind (fun x => mstep x b)) := by
-    funext st b
-    cases st <;> rfl
-  rw [hF, foldl_option]
-  simp only [Option.bind_some]
-  cases List.foldlM mstep (s, ds) s.qOps.blocks with
-  | none => rfl
-  | some p => rfl
-
-/-- control masks of a block queue are machine words (true of every queue the interpreter builds) -/
-def WordQueue (e : ExtOp R) : Prop :=
-  (∀ b ∈ e.blocks, ∀ g ∈ b.1, g.ctrl < 2 ^ 64) ∧ (∀ g ∈ e.tail, g.ctrl < 2 ^ 64)
-
-theorem sym_step_eq (t : Sym R × List Nat) (b : MultiOp R × Sep) (hb : ∀ g ∈ b.1, g.ctrl < 2 ^ 64)
-    (hc : t.1.cReg.qMask < 2 ^ 64) :
-    sym_finish_for1 (symOfModel t.1, t.2) b = (mstep t b).map (fun p => (symOfModel p.1, p.2)) := by
-  obtain ⟨s, ds⟩ := t
-  obtain ⟨op, sep⟩ := b
-  unfold sym_finish_for1 mstep Sym.stepBlock
-  cases sep with
-  | nop =>
-    simp [symOfModel, quant_apply_eq _ _ hb]
-  | measure qa ca =>
-    simp only [symOfModel, quant_apply_eq _ _ hb, quant_measure_mask_eq, Sym.draws]
-    by_cases h0 : qa &&& (s.qReg.apply op).qMask = 0
-    · simp only [h0, ↓reduceIte, Option.bind_some, ne_eq, not_true_eq_false, decide_false, Bool.false_eq_true]
-      have hv : creg_get (cregOfModel (CReg.new (s.qReg.apply op).qNum)) = ((s.qReg.apply op).measureMask qa 0).2.value := by
-        simp [QReg.measureMask, h0, creg_get, cregOfModel]
-      have hq : ofModel (s.qReg.apply op) = ofModel ((s.qReg.apply op).measureMask qa 0).1 := by
-        simp [QReg.measureMask, h0]
-      cases hm : s.mOp with
-      | set => simp [hv, store_set_eq, hq]
-      | xor => simp [hv, store_xor_eq, hq]
-    · simp only [h0, ↓reduceIte, ne_eq, not_false_eq_true, decide_true]
-      cases ds with
-      | nil => rfl
-      | cons d rest =>
-        simp only [Option.bind_some]
-        have hv : creg_get (cregOfModel ((s.qReg.apply op).measureMask qa d).2) = ((s.qReg.apply op).measureMask qa d).2.value := rfl
-        cases hm : s.mOp with
-        | set => simp [hv, store_set_eq]
-        | xor => simp [hv, store_xor_eq]
-  | ifBranch c v =>
-    have hg : creg_get_by_mask (cregOfModel s.cReg) c = s.cReg.getByMask c :=
-      creg_get_by_mask_eq (cregOfModel s.cReg) c hc
-    simp only [symOfModel, hg]
-    by_cases hv : s.cReg.getByMask c = v
-    · simp [hv, quant_apply_eq _ _ hb]
-    · simp [hv]
-  | reset qm =>
-    simp only [symOfModel, quant_apply_eq _ _ hb, quant_reset_by_mask_eq, Sym.draws]
-    by_cases h1 : qm &&& (s.qReg.apply op).qMask = (s.qReg.apply op).qMask
-    · simp [h1]
-    · by_cases h0 : qm &&& (s.qReg.apply op).qMask = 0
-      · simp [h1, h0]
-      · simp only [h1, h0, ↓reduceIte, ne_eq, not_false_eq_true, decide_true]
-        cases ds <;> rfl
-
-theorem mstep_inv (t t' : Sym R × List Nat) (b : MultiOp R × Sep) (h : mstep t b = some t') :
-    t'.1.qOps = t.1.qOps ∧ t'.1.cReg.qMask = t.1.cReg.qMask := by
-  obtain ⟨s, ds⟩ := t
-  obtain ⟨op, sep⟩ := b
-  unfold mstep Sym.stepBlock at h
-  cases sep with
-  | nop => simp at h; subst h; simp
-  | measure qa ca =>
-    simp only at h
-    split at h
-    · split at h
-      · simp at h
-      · simp at h; subst h; simp [storeBits_qMask]
-    · simp at h; subst h; simp [storeBits_qMask]
-  | ifBranch c v =>
-    simp only at h
-    split at h <;> (simp at h; subst h; simp)
-  | reset qm =>
-    simp only at h
-    split at h
-    · simp at h; subst h; simp
-    · split at h
-      · split at h
-        · simp at h
-        · simp at h; subst h; simp
-      · simp at h; subst h; simp
-
-/-- `Sym::finish` on the stream of drawn basis indices: the translated function is the model's `finish`
-(same final register, classical register and remaining draws), for every simulator whose queue has
-machine-word control masks and whose classical register has a machine-word mask -/
-theorem sym_finish_eq (s : Sym R) (ds : List Nat) (hw : WordQueue s.qOps) (hc : s.cReg.qMask < 2 ^ 64) :
-    sym_finish (symOfModel s) ds = (s.finish ds).map (fun p => (symOfModel p.1, p.2)) := by
-  rw [finish_as_foldlM]
-  unfold sym_finish
-  have key := foldlM_sim (sym_finish_for1 (R := R)) mstep (fun p => (symOfModel p.1, p.2))
-    (fun t => t.1.qOps = s.qOps ∧ t.1.cReg.qMask = s.cReg.qMask) s.qOps.blocks
-    (fun t b ht hb => sym_step_eq t b (hw.1 b hb) (by rw [ht.2]; exact hc))
-    (fun t b t' ht hb hg => by
-      have := mstep_inv t t' b hg
-      exact ⟨this.1.trans ht.1, this.2.trans ht.2⟩)
-    (s, ds) ⟨rfl, rfl⟩
-  simp only [symOfModel] at key ⊢
-  rw [key]
-  cases hres : List.foldlM mstep (s, ds) s.qOps.blocks with
-  | none => rfl
-  | some p =>
-    simp only [Option.map_some, Option.bind_some]
-    have hinv := foldlM_inv mstep (fun t => t.1.qOps = s.qOps ∧ t.1.cReg.qMask = s.cReg.qMask) s.qOps.blocks
-      (fun t b t' ht hb hg => by
-        have := mstep_inv t t' b hg
-        exact ⟨this.1.trans ht.1, this.2.trans ht.2⟩) (s, ds) p ⟨rfl, rfl⟩ hres
-    have htail : ∀ g ∈ p.1.qOps.tail, g.ctrl < 2 ^ 64 := by rw [hinv.1]; exact hw.2
-    have := quant_apply_eq p.1.qReg p.1.qOps.tail htail
-    simp only [ofModel] at this
-    simp [this, ofModel]
-
-end sym
-
-
-end Qvnt.Gen2
+import Qvnt.Lemmas.GenSym.symOfModel
+import Qvnt.Lemmas.GenSym.creg_set_of
+import Qvnt.Lemmas.GenSym.creg_xor_of
+import Qvnt.Lemmas.GenSym.creg_reset_of
+import Qvnt.Lemmas.GenSym.sym_new_eq
+import Qvnt.Lemmas.GenSym.sym_get_class_eq
+import Qvnt.Lemmas.GenSym.sym_get_probabilities_eq
+import Qvnt.Lemmas.GenSym.sym_reset_eq
+import Qvnt.Lemmas.GenSym.store_set_eq
+import Qvnt.Lemmas.GenSym.store_xor_eq
+import Qvnt.Lemmas.GenSym.storeBits_qMask
+import Qvnt.Lemmas.GenSym.foldlM_sim
+import Qvnt.Lemmas.GenSym.foldlM_inv
+import Qvnt.Lemmas.GenSym.foldl_option
+import Qvnt.Lemmas.GenSym.mstep
+import Qvnt.Lemmas.GenSym.finish_as_foldlM
+import Qvnt.Lemmas.GenSym.WordQueue
+import Qvnt.Lemmas.GenSym.sym_step_eq
+import Qvnt.Lemmas.GenSym.mstep_inv
+import Qvnt.Lemmas.GenSym.sym_finish_eq
